@@ -365,6 +365,39 @@ def _add_pos(b, off):
     return b + off
 
 
+def _add2(p, q):
+    return p + q
+
+
+def _repeat_block(p):
+    import numpy
+    return numpy.repeat(p, 2)
+
+
+def _add_location(p, block_info=None):
+    import numpy
+    lo = block_info[0]["array-location"][0][0]
+    return p + 100.0 * (lo + numpy.arange(p.shape[0]))
+
+
+def _grid_consumers():
+    """consumers that observe the block grid of their input: a second operand chunked like the first, explicit output
+    chunks, a block_info reader; each (build, numpy reference) over a 1-D inner array"""
+    import numpy as np
+    import dask_array as da
+    return {
+        "map_blocks(add, inner, w~inner.chunks)": (
+            lambda s: da.map_blocks(_add2, s, da.from_array(np.arange(s.shape[0]) * 100.0, chunks=s.chunks), dtype="f8"),
+            lambda a: a + np.arange(a.shape[0]) * 100.0),
+        "inner.map_blocks(repeat2, chunks=2c)": (
+            lambda s: s.map_blocks(_repeat_block, chunks=(tuple(2 * c for c in s.chunks[0]),), dtype="f8"),
+            lambda a: np.repeat(a, 2)),
+        "inner.map_blocks(f(block_info))": (
+            lambda s: s.map_blocks(_add_location, dtype="f8"),
+            lambda a: a + np.arange(a.shape[0]) * 100.0),
+    }
+
+
 def _add_where_out(x):
     import numpy as np
     import dask_array as da
@@ -572,4 +605,28 @@ def rewrite_targets(tier, rng):
             mk = (lambda data=data, c=c: da.from_array(data, chunks=c))
             for oname, (f, g) in ops.items():
                 out.append((f"3d/np/{c}/{oname}", (lambda mk=mk, f=f, g=g, data=data: (f(mk()), g(data), {}))))
+    # grid-sensitive consumers (map_blocks with a second operand chunked like the first, with explicit chunks, with
+    # block_info) over inner programs whose block grid the pushdowns would change: the optimiser has to keep such a
+    # consumer's input on the grid it was built for (or the program, computable un-optimised, raises / pairs wrong blocks)
+    d1g = np.arange(12.0)
+    perm = [1, 0, 3, 2, 5, 4, 7, 6, 9, 8, 11, 10]
+    swv = np.lib.stride_tricks.sliding_window_view
+    inners = {
+        "((x+1)[perm]*2)[6:10]": (lambda x: ((x + 1)[perm] * 2)[6:10], lambda a: ((a + 1)[perm] * 2)[6:10]),
+        "(x+1)[perm][5:][1:5]": (lambda x: (x + 1)[perm][5:][1:5], lambda a: (a + 1)[perm][5:][1:5]),
+        "(x+1)[perm][6:10]": (lambda x: (x + 1)[perm][6:10], lambda a: (a + 1)[perm][6:10]),
+        "x[perm][3:][:6]": (lambda x: x[perm][3:][:6], lambda a: a[perm][3:][:6]),
+        "((x+1)[perm].rechunk(12)*2)[6:10]": (lambda x: ((x + 1)[perm].rechunk(12) * 2)[6:10], lambda a: ((a + 1)[perm] * 2)[6:10]),
+        "(x*2)[::-1][2:9][1:]": (lambda x: (x * 2)[::-1][2:9][1:], lambda a: (a * 2)[::-1][2:9][1:]),
+        "(x+1).rechunk(5)[1:11][2:8]": (lambda x: (x + 1).rechunk(5)[1:11][2:8], lambda a: (a + 1)[1:11][2:8]),
+        "swv(x,3).sum(-1)[2:9]": (lambda x: da.sliding_window_view(x, 3).sum(-1)[2:9], lambda a: swv(a, 3).sum(-1)[2:9]),
+        "swv(x,3).sum(-1)[1:][1:8]": (lambda x: da.sliding_window_view(x, 3).sum(-1)[1:][1:8], lambda a: swv(a, 3).sum(-1)[1:][1:8]),
+        "(roll(x,3)+1)[2:9][1:]": (lambda x: (da.roll(x, 3) + 1)[2:9][1:], lambda a: (np.roll(a, 3) + 1)[2:9][1:]),
+        "concat(x,x*2)[3:20][2:]": (lambda x: da.concatenate([x, x * 2])[3:20][2:], lambda a: np.concatenate([a, a * 2])[3:20][2:]),
+    }
+    for c in [(6, 2, 2, 2), (8, 2, 2), (4, 4, 4), (1, 2, 9)][: 3 if tier == "quick" else 4]:
+        for iname, (fi, gi) in inners.items():
+            for cname, (fc, gc) in _grid_consumers().items():
+                out.append((f"1d/np/{c}/grid-consumer/{cname} over {iname}",
+                            (lambda c=c, fi=fi, gi=gi, fc=fc, gc=gc: (fc(fi(da.from_array(d1g, chunks=(c,)))), gc(gi(d1g)), {}))))
     return out
